@@ -299,6 +299,9 @@ func (e *c03Env) classes(r c03Row) []c03Class {
 		if m := chainkit.AlphabetThreshold(c.N) - 1; m >= 1 && m != chainkit.MajorityThreshold(c.N) {
 			cl = append(cl, c03Class{fmt.Sprintf("one signature short of the Alphabet threshold (%d of %d)", m, c.N), S(c.MultisigOf(m)), false})
 		}
+		if vh := c.Validators.ScriptHash(); vh != alpha.ScriptHash() && vh != major.ScriptHash() {
+			cl = append(cl, c03Class{"the consensus nodes' multisignature (fewer validators than committee members)", S(c.Validators), false})
+		}
 		return append(cl, c03Class{"the Alphabet multisignature", S(alpha), true})
 	case reqCommittee:
 		cl := []c03Class{{"nobody relevant (a stranger)", S(e.strng), false}, {"a single committee member", S(member), false}}
@@ -307,6 +310,9 @@ func (e *c03Env) classes(r c03Row) []c03Class {
 		}
 		if m := c.N / 2; m >= 1 {
 			cl = append(cl, c03Class{fmt.Sprintf("one signature short of the majority (%d of %d)", m, c.N), S(c.MultisigOf(m)), false})
+		}
+		if vh := c.Validators.ScriptHash(); vh != alpha.ScriptHash() && vh != major.ScriptHash() {
+			cl = append(cl, c03Class{"the consensus nodes' multisignature (fewer validators than committee members)", S(c.Validators), false})
 		}
 		return append(cl, c03Class{"the committee majority", S(major), true})
 	case reqKeyAlpha:
